@@ -1,6 +1,7 @@
 import ExaModel.Lemmas.TotalErr
 import ExaModel.Lemmas.TotalSteps
 import ExaModel.Lemmas.TotalValid
+import ExaModel.Lemmas.TotalOpen
 import ExaModel.Generated.NotifyCodes
 set_option linter.unusedSimpArgs false
 /-!
@@ -84,6 +85,19 @@ theorem defined_table_spec :
     lean on an entry only ExaBGP defines). -/
 theorem error_sites_are_rfc : ∀ e ∈ errSites, e ∈ rfcCodes := by decide
 
+/-- **OPEN bodies** (M-OpenCodec, the model of `Open.unpack_message` / `Capabilities.unpack` that C07
+    ties to the code): every byte string is decoded or refused with one of five pairs — Bad Message
+    Length 1/2, OPEN Message Error 2/0, 2/1, 2/4, 2/5 — all in the defined table. -/
+theorem open_decode_total (body : Bytes) :
+    (∃ o, Exa.Open.decodeOpen body = .ok o) ∨
+    (∃ e, Exa.Open.decodeOpen body = .error e ∧ (e.code, e.sub) ∈ definedCodes) := by
+  cases h : Exa.Open.decodeOpen body with
+  | ok o => exact Or.inl ⟨o, rfl⟩
+  | error e =>
+    have h1 := Exa.Open.decodeOpen_err body e h
+    have h2 : ∀ x ∈ Exa.Open.openErrSites, x ∈ definedCodes := by decide
+    exact Or.inr ⟨e, rfl, h2 _ h1⟩
+
 /-! ## 2. no unbounded loop: progress, fuel, linear iteration counts -/
 
 /-- **The counters count the real walks**: the first component of every counting twin is the walk
@@ -134,6 +148,15 @@ theorem aspath_walk_steps (w4 : Bool) (f n : Nat) (bs : Bytes) :
 /-- **Label stack walk**: bounded by what the length octet allows and by a third of the bytes. -/
 theorem label_walk_steps (n : Nat) (bs : Bytes) :
     (decStackSteps n bs).2 ≤ n ∧ 3 * (decStackSteps n bs).2 ≤ bs.length + 3 := decStackSteps_le n bs
+
+/-- **Capability walk of an OPEN**: the counting twin computes `walkCaps`, and looks at no more than
+    `len/2 + 1` capability TLVs (a TLV is at least code and length). -/
+theorem cap_walk_steps (fuel : Nat) (data : Bytes) :
+    (Exa.Open.walkCapsSteps fuel data).1 = Exa.Open.walkCaps fuel data ∧
+    (Exa.Open.walkCapsSteps fuel data).2 ≤ data.length / 2 + 1 := by
+  refine ⟨Exa.Open.walkCapsSteps_fst fuel data, ?_⟩
+  have := Exa.Open.walkCapsSteps_le fuel data
+  omega
 
 /-- **The whole UPDATE: all loop iterations of all walks together ≤ number of bytes of the body** —
     the withdrawn-routes walk, the attribute walk, the walks inside every attribute value (AS_PATH
@@ -187,10 +210,21 @@ def pEx : Params := { asn4 := false, addpath := [], extnh := [], msgSize := 4096
 def unknownCodes : List Nat := (List.range 256).filter (fun c => !knownCodes.contains c)
 
 example : unknownCodes.length = 240 := by decide +kernel
-example : unknownCodes.Nodup ∧ ∀ c ∈ unknownCodes, c ∉ knownCodes ∧ c < 256 := by decide +kernel
+example : unknownCodes.Nodup := List.nodup_range.filter _
+example : ∀ c ∈ unknownCodes, c ∉ knownCodes ∧ c < 256 := by
+  intro c hc
+  simp only [unknownCodes, List.mem_filter, List.mem_range, Bool.not_eq_true', List.contains_eq_mem,
+    decide_eq_false_iff_not] at hc
+  exact ⟨hc.2, hc.1⟩
 /-- the theorem applied: 240 unknown optional attributes on a 4096-byte session are accepted … -/
 example : decodeUpdate pEx (encodeUpdate pEx (unkUpdate unknownCodes)) = .ok (unkUpdate unknownCodes) :=
-  hundreds_of_unknown_attributes pEx unknownCodes (by decide +kernel) (by decide +kernel) (by decide +kernel) (by decide +kernel)
+  hundreds_of_unknown_attributes pEx unknownCodes (List.nodup_range.filter _)
+    (by
+      intro c hc
+      simp only [unknownCodes, List.mem_filter, List.mem_range, Bool.not_eq_true', List.contains_eq_mem,
+        decide_eq_false_iff_not] at hc
+      exact ⟨hc.2, hc.1⟩)
+    (by decide +kernel) (by decide +kernel)
 /-- … in a body of 724 bytes, with 240 iterations of the attribute walk -/
 example : (encodeUpdate pEx (unkUpdate unknownCodes)).length = 724 := by
   rw [encodeUpdate_unk_length]; decide +kernel
@@ -213,6 +247,14 @@ example : (decAttrsSteps pEx 20 [0x40, 1, 1, 0, 0x40, 2, 8, 2, 3, 0, 1, 0, 2, 0,
 example : (decNlrisSteps 1 1 false false 8 [24, 10, 0, 0, 8, 11]).2 = 2 := by decide
 example : (decSegsSteps false 8 [2, 3, 0, 1, 0, 2, 0, 3]).2 = 4 := by decide
 example : updateWork pEx [0, 0, 0, 22, 0x40, 1, 1, 0, 0x40, 2, 8, 2, 3, 0, 1, 0, 2, 0, 3, 0x40, 3, 4, 10, 0, 0, 1, 24, 10, 0, 0, 8, 11] = 9 := by decide
+/-- OPEN: a 9-byte body is Bad Message Length, version 3 is 2/1, an authentication parameter is 2/5;
+    a body with one unknown capability is decoded; three capability TLVs = three iterations -/
+example : Exa.Open.decodeOpen [4, 0xFD, 0xE9, 0, 180, 2, 2, 2, 2] = .error ⟨1, 2⟩ := by decide
+example : Exa.Open.decodeOpen [3, 0xFD, 0xE9, 0, 180, 2, 2, 2, 2, 0] = .error ⟨2, 1⟩ := by decide
+example : Exa.Open.decodeOpen [4, 0xFD, 0xE9, 0, 180, 2, 2, 2, 2, 2, 1, 0] = .error ⟨2, 5⟩ := by decide
+example : (Exa.Open.decodeOpen [4, 0xFD, 0xE9, 0, 180, 2, 2, 2, 2, 5, 2, 3, 200, 1, 7]).toOption.map (·.caps) =
+    some [.unknown 200 [7]] := by decide
+example : (Exa.Open.walkCapsSteps 10 [2, 0, 200, 1, 7, 70, 0]).2 = 3 := by decide
 /-- the table is the one of /repo and is not trivial -/
 example : 30 ≤ definedCodes.length ∧ 10 ≤ raisedCodes.length ∧ errSites.length = 10 := by decide
 example : (9, 9) ∉ definedCodes := by decide
